@@ -12,7 +12,7 @@ RULE = ('base cases (model, per-rank batches, hyper-parameters, history of whole
         'variant are compared with each other, with the model\'s value terms (which the Lean theorem shows do not '
         'depend on the placement) and with single-process K-FAC on the union of the per-rank batches; '
         'non-trivial = world>1 and ≥2 placement variants and ≥2 steps'
-        ' (directed corners: pre-divided products with varying damping and interval > 1; explicit inverses of float32 factors)')
+        ' (directed corners: pre-divided products with varying damping and interval > 1; explicit inverses of float32 factors; resume histories with every rank a separately spawned interpreter with its own hash seed over real gloo)')
 TRUSTED = [
     'Lean 4.33 kernel; axioms audited ⊆ {propext, Classical.choice, Quot.sound}',
     'hand-written model KV.Precond tied to the real preconditioner by this correspondence (value terms evaluated in float64)',
@@ -89,8 +89,36 @@ def lowprec_stream(ctx):
         ctx.count('lowprec-placements')
 
 
+def interpreter_stream(ctx):
+    """ranks are separate Python interpreters in a real job (torchrun, mpirun), each with its own string-hash seed; a fork of
+    this process or the in-process simulator shares one.  A few resume histories on equal-shaped layers are run over real
+    gloo with every rank spawned as its own interpreter (PYTHONHASHSEED differs per rank) and compared, rank by rank, with
+    the simulated run: collective sequence, gradients after every step, saved factors."""
+    import gloo_crosscheck
+    from fractions import Fraction
+    rng = ctx.rng
+    for i in range(ctx.budget(2, 10)):
+        world = rng.choice([2, 2, 3])
+        cfg = kfacsim.Config(rng, world=world, k=world if i % 2 == 0 else rng.choice(gen.divisors(world)), nest=False,
+                             method=rng.choice(['eigen', 'inverse']), prediv=False, inv32=False, fac32=False, accum=1)
+        cfg.arch = [('lin', 3, 3, True)] * rng.choice([4, 5, 6])
+        cfg.hyper['inv_update_steps'] = 2
+        cfg.hyper['factor_update_steps'] = 1
+        cfg.ops = ['f1', 's', 'f1', 's', 'l11', 'f1', 's', 'f1', 's']
+        kfacsim.fix_loads(cfg)
+        seeds = [rng.randrange(1, 4000) for _ in range(world)]
+        diffs = gloo_crosscheck.crosscheck(ctx, cfg, sched_seed=ctx.seed + i, hashseeds=seeds)
+        case = dict(cfg.describe(), sched_seed=ctx.seed + i, hashseeds=seeds, stream='separate-interpreters')
+        if diffs:
+            ctx.fail(f'ranks started as separate interpreters (hash seeds {seeds}) differ from the single-interpreter run: {diffs[0]}',
+                     dict(case, diffs=diffs[:3]), 'interpreter-dependent')
+        ctx.case(str(case), nontrivial=True, sample=case)
+        ctx.count('separate-interpreters')
+
+
 def run(ctx):
     lowprec_stream(ctx)
+    interpreter_stream(ctx)
     rng = ctx.rng
     nbase = ctx.budget(14, 120)
     for b in range(nbase):
